@@ -143,6 +143,8 @@ type retrySpec struct {
 	PairsSample int      // sampled pairs for other workloads (per workload/config)
 	Random      int      // random plans per workload/config
 	Steer       bool
+	Drops       bool // silently dropped acknowledgements with a ResponseTimeout configured
+	RandHist    int  // seeded random subscription histories (scenarios per config)
 }
 
 func cfgs(methods, sessions []string, always []bool) []retryParams {
@@ -195,6 +197,17 @@ func genRetry(spec retrySpec, tier string) []fw.Case {
 					cs = append(cs, fw.Mk(fmt.Sprintf("random/%s/%d", name, i), c))
 				}
 			}
+			if spec.RandHist > 0 && wn == spec.Workloads[0] {
+				per := 40
+				for i := 0; i*per < spec.RandHist; i++ {
+					c.Mode, c.N, c.Part = "randhist", per, i
+					cs = append(cs, fw.Mk(fmt.Sprintf("randhist/%s/%d", cfgName(c.Cfg, c.Always, c.Chunk, c.Late), i), c))
+				}
+			}
+			if spec.Drops {
+				c.Mode, c.N, c.Part = "drops", 0, 0
+				cs = append(cs, fw.Mk("drops/"+name, c))
+			}
 			if spec.Steer {
 				c.Mode, c.N, c.Part = "steer", 0, 0
 				cs = append(cs, fw.Mk("steer/"+name, c))
@@ -202,6 +215,72 @@ func genRetry(spec retrySpec, tier string) []fw.Case {
 		}
 	}
 	return cs
+}
+
+// randSubHistory draws a Subscribe/Unsubscribe history over a small filter set: repeated filters,
+// changed QoS, multi-filter calls, duplicates inside one call, absent filters, interleaved
+// publishes, idle cuts and outages, some calls before Connect.
+func randSubHistory(rng *rand.Rand) (pre, steps []scen.Step) {
+	fl := []string{"a", "b", "c", "d", "e/+", "f/#"}
+	n := 3 + rng.Intn(8)
+	tag := 0
+	mk := func() scen.Step {
+		switch rng.Intn(10) {
+		case 0, 1, 2, 3:
+			k := 1 + rng.Intn(3)
+			var subs []scen.SubSpec
+			for i := 0; i < k; i++ {
+				subs = append(subs, ss(fl[rng.Intn(len(fl))], byte(rng.Intn(3))))
+			}
+			if rng.Intn(5) == 0 {
+				subs = append(subs, ss(subs[0].F, byte(rng.Intn(3)))) // same filter twice in one call
+			}
+			return scen.Step{Op: "sub", Subs: subs, Wait: rng.Intn(2) == 0}
+		case 4, 5, 6:
+			k := 1 + rng.Intn(2)
+			var f []string
+			for i := 0; i < k; i++ {
+				f = append(f, fl[rng.Intn(len(fl))])
+			}
+			if rng.Intn(3) == 0 {
+				f = append(f, f[rng.Intn(len(f))]) // duplicate inside one Unsubscribe
+			}
+			return scen.Step{Op: "unsub", Filters: f, Wait: rng.Intn(2) == 0}
+		case 7:
+			tag++
+			return scen.Step{Op: "pub", QoS: byte(rng.Intn(3)), Tag: fmt.Sprintf("p%d", tag), Wait: rng.Intn(2) == 0}
+		case 8:
+			return op("cut")
+		default:
+			if rng.Intn(2) == 0 {
+				return op("down")
+			}
+			return op("up")
+		}
+	}
+	for i := rng.Intn(3); i > 0; i-- {
+		st := mk()
+		if st.Op == "sub" || st.Op == "unsub" || st.Op == "pub" {
+			st.Wait = false
+			pre = append(pre, st)
+		}
+	}
+	down := false
+	for i := 0; i < n; i++ {
+		st := mk()
+		switch st.Op {
+		case "down":
+			down = true
+		case "up":
+			down = false
+		}
+		if down {
+			st.Wait = false // nothing can be acknowledged during an outage
+		}
+		steps = append(steps, st)
+	}
+	steps = append(steps, op("up"), op("cut"), pub(1, "last"))
+	return pre, steps
 }
 
 // plans enumerates the scenarios of one case.
@@ -221,6 +300,25 @@ func (p retryParams) scenarios(rng *rand.Rand) []scen.Scenario {
 	switch p.Mode {
 	case "one":
 		return []scen.Scenario{*p.One}
+	case "randhist":
+		for i := 0; i < p.N; i++ {
+			pre, steps := randSubHistory(rng)
+			var plans [][]scen.Fault
+			plans = append(plans, nil)
+			for j := 0; j < 3; j++ {
+				var f []scen.Fault
+				at := 1
+				for k := rng.Intn(3) + 1; k > 0; k-- {
+					at += 1 + rng.Intn(6)
+					f = append(f, scen.Fault{At: at, Kind: scen.CutKinds[rng.Intn(4)]})
+				}
+				plans = append(plans, f)
+			}
+			for _, f := range plans {
+				f := f
+				add(f, nil, func(s *scen.Scenario) { s.Pre, s.Steps = pre, steps })
+			}
+		}
 	case "single":
 		add(nil, nil, nil)
 		for k := 1; k <= n+1; k++ {
@@ -291,6 +389,19 @@ func (p retryParams) scenarios(rng *rand.Rand) []scen.Scenario {
 				}
 				s.WaitBaseMs, s.WaitMaxMs = 1, []int{1, 2, 4}[rng.Intn(3)]
 			})
+		}
+	case "drops":
+		// the acknowledgement of the k-th request packet is silently dropped (link stays up) and
+		// ResponseTimeout ends the wait; alone, followed by a cut, or preceded by a cut
+		withResp := func(s *scen.Scenario) { s.RespMs, s.TimeoutMs = 8, 40 }
+		for k := 2; k <= n+1; k++ {
+			add([]scen.Fault{{At: k, Kind: scen.DropResp}}, nil, withResp)
+			for d := 1; d <= 3; d++ {
+				kind := scen.CutKinds[(k+d)%4]
+				add([]scen.Fault{{At: k, Kind: scen.DropResp}, {At: k + d, Kind: kind}}, nil, withResp)
+				add([]scen.Fault{{At: k, Kind: kind}, {At: k + d, Kind: scen.DropResp}}, nil, withResp)
+				add([]scen.Fault{{At: k, Kind: scen.DropResp}, {At: k + d, Kind: scen.DropResp}}, nil, withResp)
+			}
 		}
 	case "steer":
 		steerSets := [][]scen.Step{
